@@ -31,8 +31,16 @@ type Backoff interface {
 // BackoffBuilder is the builder for backoff.
 type BackoffBuilder struct {
 	layer []interface{}
-	base  atomic.Value // Backoff
+	base  atomic.Value // builtBase
 	spec  string
+}
+
+// builtBase is what the builder remembers as its base backoff: the backoff itself and,
+// when it was parsed from a specification, that specification.
+type builtBase struct {
+	backoff Backoff
+	spec    string
+	parsed  bool
 }
 
 type withLimit struct {
@@ -77,7 +85,7 @@ func (b *BackoffBuilder) BaseBackoffSpec(spec string) *BackoffBuilder {
 // WithJitter and WithLimit number of attempts.
 func (b *BackoffBuilder) BaseBackoff(base Backoff) *BackoffBuilder {
 	if base != nil {
-		b.base.Store(base)
+		b.base.Store(builtBase{backoff: base})
 	}
 	return b
 }
@@ -112,8 +120,12 @@ func (b *BackoffBuilder) WithJitterBound(minJitterRate, maxJitterRate float64) *
 }
 
 func (b *BackoffBuilder) loadBase() Backoff {
-	base, _ := b.base.Load().(Backoff)
-	return base
+	base, _ := b.base.Load().(builtBase)
+	if base.parsed && base.spec != b.spec {
+		// the specification has been changed since this base was parsed from it
+		return nil
+	}
+	return base.backoff
 }
 
 // Build the backoff.
@@ -130,7 +142,7 @@ func (b *BackoffBuilder) Build() (r Backoff, err error) {
 			return
 		}
 
-		b.base.Store(r)
+		b.base.Store(builtBase{backoff: r, spec: b.spec, parsed: true})
 	}
 
 	for _, layer := range b.layer {
